@@ -125,6 +125,7 @@ func genC03(h *H) {
 		h.do("random-naf", "naf", hx(h.randBytes(1+h.rng.Intn(32))))
 		a, b := h.randScalarInt(), h.randScalarInt()
 		h.do("random-mul512", "mul512rsh320", hx(be32(a.Mod(a, curveN))), hx(be32(b.Mod(b, curveN))))
+		h.do("random-kernel", "kern", append([]string{"Scalar_mul512Rsh320Round"}, wordsDec(a, b)...)...)
 	}
 	// rounding boundaries of mul512Rsh320Round inside splitK: scalars k with k*z mod 2^(320+64j) within a few
 	// units of the top (the rounding increment carries through j 64-bit digits: 2^-64, 2^-128 … at random),
@@ -153,6 +154,8 @@ func genC03(h *H) {
 					ks := hx(be32(k))
 					h.do("round-splitk", "splitk", ks)
 					h.do("round-mul512", "mul512rsh320", ks, hx(be32(z)))
+					// the same pair through the REGENERATED kernel of mul512Rsh320Round (tools/gotr T1)
+					h.do("round-kernel", "kern", append([]string{"Scalar_mul512Rsh320Round"}, wordsDec(k, z)...)...)
 					if sh == 384 || sh == 448 {
 						h.do("round-var-G", "smul", ks, G)
 						h.do("round-base", "sbmul", ks)
@@ -185,6 +188,20 @@ func genC03(h *H) {
 			}
 		}
 	}
+}
+
+// wordsDec: the 8+8 little-endian 32-bit words of two scalars, in decimal (kern op argument format)
+func wordsDec(a, b *big.Int) []string {
+	var out []string
+	for _, v := range []*big.Int{a, b} {
+		t := new(big.Int).Set(v)
+		m := big.NewInt(1 << 32)
+		for i := 0; i < 8; i++ {
+			out = append(out, new(big.Int).Mod(t, m).String())
+			t.Rsh(t, 32)
+		}
+	}
+	return out
 }
 
 func bytesRepeat(b byte, n int) []byte {
